@@ -172,17 +172,20 @@ def _(vc):
 # C09: product layers that list their inputs in different scope orders.  multiply pairs the inputs positionally, so it must either
 # refuse (the documented NotImplementedError) or return a circuit that is still smooth and decomposable over the operands' scope
 # whose product layers pair inputs over the SAME variable; it must never return a product of inputs over different variables.
+_PERMS = [(1, 0), (0, 2, 1), (1, 0, 2), (2, 1, 0), (1, 2, 0)]
 for _kind in KINDS:
-    for _hk in ("HadamardLayer", "KroneckerLayer"):
-        def _h(vc, _kind=_kind, _hk=_hk):
+    for _hk, _perm in [(h, p) for h in ("HadamardLayer", "KroneckerLayer") for p in _PERMS if not (h == "KroneckerLayer" and len(p) == 3)] + \
+            ([("KroneckerLayer", (0, 2, 1))] if _kind == "embedding" else []):
+        def _h(vc, _kind=_kind, _hk=_hk, _perm=_perm):
             K1, K2, C = vc.int("K1", lo=1), vc.int("K2", lo=1), vc.int("C", lo=2)
-            v0, v1 = vc.int("v0", lo=0), vc.int("v1", lo=0)
-            distinct(vc, [v0, v1])
+            n = len(_perm)
+            vars_ = [vc.int(f"v{j}", lo=0) for j in range(n)]
+            distinct(vc, vars_)
             ops = []
-            for K, vs, tag in ((K1, [v0, v1], "1"), (K2, [v1, v0], "2")):
-                a, b = (input_layer(vc, _kind, vc.new(f"{SC}:Scope", [v]), K, C) for v in vs)
-                h = vc.new(f"{SL}:{_hk}", K, arity=2)
-                ops.append(vc.new(f"{SCI}:Circuit", [a, b, h], {h: [a, b]}, [h]))
+            for K, vs, tag in ((K1, list(vars_), "1"), (K2, [vars_[j] for j in _perm], "2")):
+                ins_ = [input_layer(vc, _kind, vc.new(f"{SC}:Scope", [v]), K, C) for v in vs]
+                h = vc.new(f"{SL}:{_hk}", K, arity=n)
+                ops.append(vc.new(f"{SCI}:Circuit", ins_ + [h], {h: list(ins_)}, [h]))
             exc, res = vc.raises(lambda: vc.call(f"{SF}:multiply", ops[0], ops[1], registry=make_registry(vc)))
             if exc is not None:
                 vc.ensure("refused_with_a_documented_error", exc in ("NotImplementedError", "StructuralPropertyError", "ValueError"))
@@ -194,4 +197,4 @@ for _kind in KINDS:
                 if S.cls_is(vc, l, "InputLayer"):
                     vc.ensure("every_input_layer_is_over_one_variable", vc.attr(vc.attr(l, "scope"), "__len__") is not None and
                               vc.must(to_z3(vc.call((vc.attr(l, "scope"), "__len__"))) == 1))
-        obligation(f"C09.multiply.permuted_product_inputs.{_hk}.{_kind}", "C09", [f"{SF}:multiply", f"{SCI}:are_compatible"])(_h)
+        obligation(f"C09.multiply.permuted_product_inputs.{_hk}.{_kind}" + ("" if _perm == (1, 0) else ".order" + "".join(map(str, _perm))), "C09", [f"{SF}:multiply", f"{SCI}:are_compatible"])(_h)
